@@ -305,6 +305,10 @@ class FlowEmit:
             return [pad + "Flow.ret " + self.retval(t, ty, env)]
         if k == "expr":
             e = s[1]
+            if e[0] == "macro" and e[1] in ("assert_eq", "debug_assert_eq"):
+                a, at = self.ex(e[2][0], env); b, bt = self.ex(e[2][1], env)
+                if at != bt: die("assert_eq! on different types")
+                return [pad + "if decide (%s = %s) then" % (a, b)] + self.block(rest, tail, env, M, ind + 1) + [pad + "else Flow.panic"]
             if e[0] == "macro" and e[1] in ("assert", "debug_assert"):
                 c, ct = self.ex(e[2][0], env)
                 if ct != "B": die("assert! on non-bool")
